@@ -107,9 +107,9 @@ SPEC = {
          'bound': 'Segment PID (inside an ADT_A01), 3 initial states x 2 levels x every history of length <=2 over %d actions (%s)' % (NSEG, _ALL)},
         {'name': 'msg.len2', 'fn': '_ob_msg2', 'parts': 16, 'cond_timeout': 900, 'path_timeout': 60,
          'bound': 'Message ADT_A01, 2 initial states x 2 levels x every history of length <=2 over %d actions' % NMSG},
+    ] + ([
         {'name': 'fld.len2', 'fn': '_ob_fld2', 'parts': 16, 'cond_timeout': 900, 'path_timeout': 60,
          'bound': 'Field PID_5, 2 initial states x 2 levels x every history of length <=2 over %d actions' % NFLD},
-    ] + ([
         {'name': 'seg.len3', 'fn': '_ob_seg3', 'parts': 64, 'cond_timeout': 3000, 'path_timeout': 40,
          'bound': 'Segment PID, 3 initial states x 2 levels x every history of length 3 over %d selected actions' % (NCORE - 1)},
     ] if THOROUGH else []),
